@@ -972,10 +972,34 @@ def _ff_new(shapes, case):
     return shapes.build_freeform(case["start"][0], case["start"][1], scale=scale)
 
 
-def _ff_draw(b, c, close):
+_FF_CONTAINER_SCALES = (1, [0.5, 2])   # the first and the last of FF_SCALES, in the JSON form the cases carry
+
+
+FF_CONTAINERS = ("tuple", "list-of-lists", "generator", "iterator", "fraction-coordinates")
+
+
+def _ff_verts(verts, kind="list"):
+    """The vertices as the documented 'iterable of (x, y) pairs' of the given kind (default: list of tuples)."""
+    if kind == "list":
+        return [tuple(v) for v in verts]
+    if kind == "tuple":
+        return tuple(tuple(v) for v in verts)
+    if kind == "list-of-lists":
+        return [list(v) for v in verts]
+    if kind == "generator":
+        return (tuple(v) for v in verts)
+    if kind == "iterator":
+        return iter([tuple(v) for v in verts])
+    if kind == "fraction-coordinates":
+        from fractions import Fraction
+        return [tuple(Fraction(c).limit_denominator(64) for c in v) for v in verts]
+    raise ValueError(kind)
+
+
+def _ff_draw(b, c, close, kind="list"):
     if c.get("move") is not None:
         b.move_to(c["move"][0], c["move"][1])
-    b.add_line_segments([tuple(v) for v in c["verts"]], close=close)
+    b.add_line_segments(_ff_verts(c["verts"], kind), close=close)
 
 
 def _ff_build(shapes, case):
@@ -985,7 +1009,7 @@ def _ff_build(shapes, case):
     for c in case["contours"]:
         if c.get("move") is not None:
             b.move_to(c["move"][0], c["move"][1])
-        b.add_line_segments([tuple(v) for v in c["verts"]], close=case["close"])
+        b.add_line_segments(_ff_verts(c["verts"], case.get("container", "list")), close=case["close"])
     return b
 
 
@@ -1045,6 +1069,16 @@ def _ff_check(shape, case, origin):
 def _ff_cases(item, thorough):
     """Expand a work-item descriptor into builder cases (without origin)."""
     kind = item[0]
+    if kind == "container":
+        # the same pens handed over as another KIND of iterable (one-shot iterables are consumed once only)
+        _, start, ckind = item
+        for p in FF_POINTS_SMALL:
+            for case in _ff_cases(("single", start, p), False):
+                if not case["close"] or case["scale"] not in _FF_CONTAINER_SCALES:
+                    continue
+                case["container"] = ckind
+                yield case
+        return
     if kind == "single":
         _, start, first = item   # first = None -> the empty list; else lists beginning with `first`
         maxlen = 3 if thorough else 2
@@ -1136,6 +1170,9 @@ def _ff_items(thorough):
         items.append(("reuse", start, ()))
         for p in FF_POINTS_SMALL:
             items.append(("reuse", start, (p,)))
+    for start in FF_STARTS:
+        for ckind in FF_CONTAINERS:
+            items.append(("container", start, ckind))
     return items
 
 
@@ -1145,7 +1182,8 @@ def _ff_expected_count(thorough):
     single = len(FF_STARTS) * nlists
     npts = len(FF_POINTS if thorough else FF_POINTS_SMALL)
     double = len(FF_STARTS) * (1 + len(FF_POINTS_SMALL)) * npts * (1 + npts)
-    return (single + double) * 2 * len(FF_SCALES) * len(FF_ORIGINS) + 2 * _ff_expected_reuse_builders(thorough)
+    container = len(FF_STARTS) * len(FF_CONTAINERS) * len(FF_POINTS_SMALL) * (1 + len(FF_POINTS)) * len(_FF_CONTAINER_SCALES)
+    return ((single + double) * 2 * len(FF_SCALES) + container) * len(FF_ORIGINS) + 2 * _ff_expected_reuse_builders(thorough)
 
 
 def _ff_expected_reuse_builders(thorough):
